@@ -196,11 +196,19 @@ ADDED = {
  "C13": " Also: unit maps never keep cancelled entries, so equal quantities have equal representations (C13-R6 = C02-R1).",
  "C14": " Also: one segment per build - no function on an asset's loading path commits, merges or opens a writer (C14-R6).",
  "C16": " Also: every kind of session serves a built index (C16-R8 = C15-R3/R4/R6); a constant's source id resolves through the id->index map built from the decoded list (C16-R9).",
+ "C05": " Also: an SI prefix symbol in front of an SI unit symbol keeps its SI meaning (C05-R8); a unit word met twice must carry the same prefix, found out before anything is changed (C05-R9, summary of Compound::update).",
+ "C08": " Also: the scientific form is decided, whatever its code looks like, on whole parts of 1..5 digits with limits 0..3 (bounded form of C08-R6: the digit string is a sequence of symbolic characters, the fraction digits come from the symbolic generator).",
+ "C11": " Also: subtractions on unsigned integers whose operands are never compared are reported (they underflow for small values); error spans are in the caller's text (C11-R4 = C12-R9).",
  "C19": " Also: the binary's on-disk session answers like an in-memory one (C19-R5 = C14-R2, C15-R6); the 12-digit rendering is the faithful one (C19-R6 = C08-R1..R7); the exponent of a displayed unit is printed digit by digit (C19-R7).",
 }
 ALIAS_NOTE = (" Functions, types and fields renamed or moved against the reference tree (ref/fn_reference.json) are recognised by "
               "signature / shape and call-graph position and analysed under the names the rules know (sa/aliases.py); a consistent "
               "renaming preserves meaning, so this cannot hide a violation.")
+FOUNDATION = (" The property is stated over the unit machinery, so it also includes the shared foundations (rule <id>-F): distinct units "
+              "have distinct identities (C17-R1), standard base dimensions (C05-R2), canonical unit maps (C02-R1), arithmetic wrappers "
+              "that forward unchanged (C01-R3), builtins that keep their argument's unit (C10).")
+for k in ("C02", "C03", "C04", "C09", "C13"):
+    ADDED[k] = ADDED.get(k, "") + FOUNDATION
 for k, extra in ADDED.items():
     CLAIMED[k]["text"] = CLAIMED[k]["text"] + extra
 for k in CLAIMED:
